@@ -59,7 +59,11 @@ impl Program {
         // collect all instances of type templates from the symbol table
         let mut data_types = Vec::new();
         let mut codata_types = Vec::new();
-        for (name, (pol, type_args, xtors)) in symbol_table.types {
+        // iterate in a fixed order (the symbol table is a hash map), so that the output of the
+        // compiler does not depend on the hash seed
+        let mut types: Vec<_> = symbol_table.types.into_iter().collect();
+        types.sort_by(|(name1, _), (name2, _)| name1.cmp(name2));
+        for (name, (pol, type_args, xtors)) in types {
             match pol {
                 Polarity::Data => {
                     let ctors = xtors
